@@ -607,7 +607,7 @@ pub fn run_property(prop: &Prop, tier: Tier, seed: u64, root: PathBuf, only_stre
             files.sort();
             for p in files {
                 let text = std::fs::read_to_string(&p).unwrap_or_default();
-                let v: Value = match serde_json::from_str(&text) {
+                let v: Value = match parse_json(&text) {
                     Ok(v) => v,
                     Err(e) => {
                         println!("ERROR bad replay file {}: {e}", p.display());
@@ -833,6 +833,15 @@ fn write_evidence(prop: &Prop, sh: &Shared, wall: f64, violations: usize) {
     let _ = std::fs::write(dir.join(format!("{}.json", prop.id)), serde_json::to_string_pretty(&ev).unwrap());
 }
 
+/// JSON text → Value without serde_json's nesting limit of 128 (replay files of very deep
+/// values); callers run on big-stack threads
+pub fn parse_json(text: &str) -> Result<Value, String> {
+    let mut de = serde_json::Deserializer::from_str(text);
+    de.disable_recursion_limit();
+    let v = <Value as serde::Deserialize>::deserialize(&mut de).map_err(|e| e.to_string())?;
+    Ok(v)
+}
+
 pub fn replay_file(prop: &Prop, root: PathBuf, path: &str) -> i32 {
     let text = match std::fs::read_to_string(path) {
         Ok(t) => t,
@@ -841,7 +850,7 @@ pub fn replay_file(prop: &Prop, root: PathBuf, path: &str) -> i32 {
             return 2;
         }
     };
-    let v: Value = match serde_json::from_str(&text) {
+    let v: Value = match parse_json(&text) {
         Ok(v) => v,
         Err(e) => {
             println!("ERROR bad json {path}: {e}");
